@@ -22,11 +22,11 @@ PLAN = {
     "quick": {"configs": ["ext1", "ext0", "ovf"], "nshards": 6, "nshards_ovf": 4, "timeout": 900, "week_start": [0, 6, 0, 5, 2]},
     "thorough": {"configs": ["ext1", "ext0", "ovf"], "nshards": 12, "nshards_ovf": 8, "timeout": 3400, "suite": ["ext1"], "week_start": [0, 6, 0, 5, 2]},
 }
-DECIDING = ["parse.outcome", "strict.reject", "backend_join"]
-FLOORS = {"quick": {"parse.outcome": 500000, "strict.reject": 300, "backend_join": 8000},
-          "thorough": {"parse.outcome": 5 * 10**6, "strict.reject": 300, "backend_join": 15000}}
+DECIDING = ["parse.outcome", "strict.reject", "backend_join", "concurrent"]
+FLOORS = {"quick": {"parse.outcome": 500000, "strict.reject": 300, "backend_join": 8000, "concurrent": 20000},
+          "thorough": {"parse.outcome": 5 * 10**6, "strict.reject": 300, "backend_join": 15000, "concurrent": 100000}}
 REQUIRED_HOOKS = ["pendulum.parse"]
-TECHNIQUE = "exception-class monitor (contract with exceptional-exit handler) on pendulum.parse over enumerated edits of every valid form, long digit runs before and after the decimal separator (up to 400 digits), backend-agreement log join, overflow-checked extension build as integer sanitizer"
+TECHNIQUE = "exception-class monitor (contract with exceptional-exit handler) on pendulum.parse over enumerated edits of every valid form, long digit runs before and after the decimal separator (up to 400 digits), backend-agreement log join, overflow-checked extension build as integer sanitizer; streams of distinct strings parsed by four threads at once (1 us switch interval), history judged offline"
 LEVEL_TEXT = ("every observed call of pendulum.parse is classified: supported type, ValueError, or anything else (violation, keyed by "
               "exception class and innermost pendulum frame); all single edits, truncations, sampled double edits and concatenations of "
               "~60 valid forms plus random/non-ASCII strings x option sets x three builds (release, pure Python, overflow-checked); "
@@ -211,6 +211,8 @@ def cases(M):
         yield {"k": "edits", "si": si, "double": 3000 if thorough else 400, "seed": r.randrange(1 << 30), "allopts": True}
     yield {"k": "concat", "n": (300000 if thorough else 30000) // M.nshards, "seed": r.randrange(1 << 30)}
     yield {"k": "random", "n": (2000000 if thorough else 150000) // M.nshards, "seed": r.randrange(1 << 30)}
+    if M.shard % 2 == 0:
+        yield {"k": "threads", "seed": r.randrange(1 << 30), "n": 6000 if thorough else 2000}
     if M.shard % 4 == 1:
         yield {"k": "longfrac", "seed": 1000 + M.shard // 4}       # the same strings in every configuration (join)
     if M.shard == 0:
@@ -287,6 +289,65 @@ def run(M, c):
                     M.current = {"k": "one", "s": s, "o": oname}
                     out = call(M, s, oname, opts)
                     M.cls("huge", tmpl, oname, out)
+        return
+    if k == "threads":
+        # the same stream of DISTINCT strings parsed by four threads at once (anything parse() memoises, evicts or keeps
+        # in module-level scratch state is then read and written concurrently); every thread records its outcomes, the
+        # history is judged afterwards: only ValueError may be raised, and every thread must see the value a later
+        # single-threaded parse gives (and, for the plain date-time form, the value datetime.fromisoformat gives)
+        from pvmon import conc
+
+        P = M.pendulum
+        r = random.Random(c["seed"])
+        items = []
+        for i in range(c["n"]):
+            y, mo, d, h, mi, sec = 1900 + r.randrange(200), 1 + r.randrange(12), 1 + r.randrange(28), r.randrange(24), r.randrange(60), r.randrange(60)
+            form = i % 8
+            if form < 4:
+                items.append(f"{y:04d}-{mo:02d}-{d:02d}T{h:02d}:{mi:02d}:{sec:02d}" + ("+00:00", "Z", "-05:30", ".%06d+01:00" % r.randrange(10**6))[form])
+            elif form == 4:
+                items.append(f"P{r.randrange(1, 400)}DT{h}H{mi}M{sec}.{r.randrange(10**6):06d}S")
+            elif form == 5:
+                items.append(f"{y:04d}-{mo:02d}-{d:02d}T{h:02d}:{mi:02d}:{sec:02d}Z/P{r.randrange(1, 50)}D")
+            elif form == 6:
+                items.append(f"{y:04d}-W{1 + r.randrange(52):02d}-{1 + r.randrange(7)}")
+            else:
+                items.append(f"{y:04d}-{13 + r.randrange(80):02d}-{d:02d}T{h:02d}:{mi:02d}")        # impossible month: ValueError
+
+        def one(s_):
+            return _digest(P.parse(s_))
+
+        M.quiet += 1
+        try:
+            hist, st = conc.run(items, one, nthreads=4, chunk=64)
+            ref = {}
+            for s_ in items:
+                try:
+                    ref[s_] = ("ok", one(s_))
+                except ValueError:
+                    ref[s_] = ("VE", None)
+                except Exception as e:  # noqa: BLE001
+                    ref[s_] = ("exc", type(e).__name__)
+        finally:
+            M.quiet -= 1
+        for k_, v in st.items():
+            M.count("concurrent." + k_, v)
+        for t, i, kind, v in hist:
+            s_ = items[i]
+            M.current = {"k": "one", "s": s_, "o": "default"}
+            if kind == "exc":
+                ok = isinstance(v, ValueError) and ref[s_][0] == "VE"
+                M.check("concurrent", ok, "C17/concurrent:" + (f"raised-{type(v).__name__}" if not isinstance(v, ValueError) else "rejected-what-one-thread-accepts"),
+                        "parse() called from several threads at once raised something other than ValueError (or rejected a string it accepts single-threaded)",
+                        s=s_, exc=repr(v)[:200], thread=t, single_threaded=ref[s_])
+                continue
+            ok = ref[s_] == ("ok", v)
+            if ok and i % 8 < 4:
+                ok = v == "T:" + dt.datetime.fromisoformat(s_.replace("Z", "+00:00")).isoformat()
+            M.check("concurrent", ok, "C17/concurrent:value-differs", "parse() called from several threads at once returned another value than single-threaded",
+                    s=s_, got=repr(v)[:200], thread=t, single_threaded=repr(ref[s_])[:200])
+        M.cls("threads", st["threads"])
+        M.sample({"k": "threads", "n": c["n"]})
         return
     if k == "longfrac":
         # long digit runs AFTER the decimal separator (the integer positions are the business of "huge"): fractions of 10..400
